@@ -634,6 +634,11 @@ def overflow_flag(op, a, b, signed):
     return mk("not", mk("=", wide, resize(mk(op, a, b), ww, signed)))
 
 
+def _names(callee, pat):
+    """does the havoc/ignore pattern name this callee?  (whole trailing path segments: `get` matches `X::get`, not `X::forget`)"""
+    return callee == pat or (callee.endswith(pat) and not re.match(r"\w", callee[-len(pat) - 1]))
+
+
 class Result:
     def __init__(self):
         self.ret, self.panic, self.ub, self.heap, self.calls = None, FALSE, FALSE, {}, []
@@ -748,6 +753,8 @@ class Translator:
             v = self.read_place(env, f, p[1])
             if isinstance(v, RefVal):
                 return v.obj
+            if isinstance(v, Opaque):
+                return Opaque("deref of " + v.why)
             raise Unsupported("deref of a non-struct reference in %s" % f.name)
         base = self.read_place(env, f, p[1])
         if isinstance(base, TupleVal):
@@ -863,8 +870,20 @@ class Translator:
             if fr[0] == 0:
                 return Val(mk("ite", v.t, bv(1, to[0]), bv(0, to[0])), m.group(2))
             return Val(resize(v.t, to[0], fr[1]), m.group(2))
-        if s.startswith("copy ") or s.startswith("move ") or s.startswith("const "):
-            return self.operand(env, f, s)
+        if s.startswith("copy ") or s.startswith("move "):
+            v = self.operand(env, f, s)
+            if isinstance(v, Opaque) and v.why.startswith("deref of") and ty_info(dest_ty) is not None:
+                # a scalar loaded through a pointer we do not model (lazy_static cell, element of a Vec): free input
+                v = self.input("mem.deref", dest_ty, fresh=True)
+                self.havoced.append("load through unmodelled pointer %s (fresh symbolic %s)" % (s, v.t.par))
+            return v
+        if s.startswith("const "):
+            try:
+                return self.operand(env, f, s)
+            except Unsupported:
+                if ty_info(dest_ty) is None:
+                    return Opaque("constant " + s[6:40])
+                raise
         m = re.match(r"^([A-Z]\w*)\((.*)\)$", s)
         if m and (m.group(1) in BINOPS or m.group(1) in CMPOPS or m.group(1) in ("Shl", "Shr", "Div", "Rem", "Not", "Neg")
                   or m.group(1).endswith("WithOverflow")):
@@ -1011,7 +1030,7 @@ class Translator:
             b, it = stack[-1]
             for s in it:
                 if color.get(s) == 1:
-                    raise Unsupported("not translated: contains loop (back-edge %s -> %s in %s)" % (b, s, f.name))
+                    raise Unsupported("contains loop (back-edge %s -> %s in %s)" % (b, s, f.name))
                 if s not in color:
                     color[s] = 1
                     stack.append((s, iter(self.successors(f, s))))
@@ -1122,14 +1141,24 @@ class Translator:
             panics.append(reach)
             return
         dty = f.locals.get(dest[1], "") if dest[0] == "local" else (dest[3] if dest[0] == "field" else "")
-        base = re.sub(r"::<[^()]*>$", "", callee)
-        generic = re.search(r"::<(.*)>$", callee)
+        if re.match(r"^(copy|move) _\d+$", callee):
+            callee = "<fn pointer>"  # call through a function pointer / closure argument: only ignorable, never inlined
+        base, generic = callee, None
+        if callee.endswith(">"):
+            depth = 0
+            for j2 in range(len(callee) - 1, -1, -1):     # strip one trailing, balanced `::<...>` (turbofish of the callee)
+                depth += callee[j2] == ">" and callee[j2 - 1:j2] != "-"
+                depth -= callee[j2] == "<"
+                if depth == 0:
+                    if callee[j2 - 2:j2] == "::":
+                        base, generic = callee[:j2 - 2], re.match(r"^(.*)$", callee[j2 + 1:-1])
+                    break
         args = lambda: [self.operand(env, f, a) for a in split_top(argtxt)]
         sc = lambda: [self.scalar(env, f, a) for a in split_top(argtxt)]
         out, cp, cub = None, FALSE, FALSE
         b = re.match(r"^(?:core|std)::num::<impl ([iu]\w+)>::(\w+)$", base)
         mm = re.match(r"^(?:(?:core|std)::cmp::|Ord::|<[iu]\w+ as Ord>::)(min|max)$", base)
-        if any(base == h or base.endswith("::" + h) for h in self.havoc):
+        if any(_names(base, h) for h in self.havoc):
             a = args()
             if ty_info(dty) is not None:
                 out = self.input("call." + base.rsplit("::", 1)[-1], dty, fresh=True)
@@ -1138,10 +1167,11 @@ class Translator:
             else:
                 out = Opaque("result of havoced call " + base)
             self.havoced.append(base)
-        elif any(base == h or base.endswith("::" + h) for h in self.ignore):
+            res.calls.append((re.sub(r"^.*(::|>::)", "", base), reach, a))  # arguments stay observable: callarg.<name>.<i>
+        elif any(_names(base, h) for h in self.ignore):
             a = args()
             self.effects.append(base)
-            res.calls.append((base.rsplit("::", 1)[-1], reach, a))
+            res.calls.append((re.sub(r"^.*(::|>::)", "", base), reach, a))
             out = UNIT if dty.strip() == "()" else Opaque("result of ignored call " + base)
             if ty_info(dty) is not None:
                 raise Unsupported("ignored call %s returns a scalar; havoc it instead" % base)
@@ -1250,6 +1280,11 @@ class Model:
             calls[n] = mk("or", calls.get(n, FALSE), c)
         for n, c in calls.items():
             self.outputs["calls." + n] = (c, "bool")
+            sites = [a for n2, _, a in res.calls if n2 == n]
+            if len(sites) == 1:
+                for i, a in enumerate(sites[0]):
+                    if isinstance(a, Val):
+                        self.outputs["callarg.%s.%d" % (n, i)] = (a.t, a.ty)
         self.inlined = sorted(set(tr.inlined))
         self.havoced = sorted(set(tr.havoced))
         self.effects = sorted(set(tr.effects))
@@ -1353,11 +1388,85 @@ class Solver:
             pass
 
 
+class Cvc5:
+    """cvc5 as the second opinion.  Every question is a fresh, non-incremental process fed the prelude, all function
+    definitions and the query: with --incremental cvc5 switches off the preprocessing that makes division/remainder
+    obligations feasible (measured: 95 s / timeout incremental versus 0.05-5 s one-shot).  Two configurations are raced,
+    plain bit-blasting and the integer translation (--solve-bv-as-int=sum); the first sat/unsat wins, a second answer that
+    arrives within the grace period must agree."""
+    CONFIGS = (("bitblast", []), ("bv-as-int", ["--solve-bv-as-int=sum"]))
+
+    def __init__(self):
+        self.name = "cvc5"
+        self.preamble = ["(set-option :produce-models true)", "(set-logic QF_BV)"]
+        self.dead = None
+        self.version = ""
+
+    def define(self, text):
+        self.preamble.append(text)
+
+    def run(self, text, timeout_s, race=True):
+        """-> (stdout of the winning configuration or None on timeout, name of the configuration)"""
+        full = "\n".join(self.preamble) + "\n" + text + "\n"
+        if os.environ.get("MIRSMT_DUMP"):
+            Cvc5._n = getattr(Cvc5, "_n", 0) + 1
+            open(os.path.join(os.environ["MIRSMT_DUMP"], "cvc5-%03d.smt2" % Cvc5._n), "w").write(full)
+        procs = []
+        for cname, extra in (self.CONFIGS if race else self.CONFIGS[:1]):
+            p = subprocess.Popen(["cvc5", "--lang", "smt2", "--produce-models", "--tlimit=%d" % int(timeout_s * 1000)] + extra,
+                                 stdin=subprocess.PIPE, stdout=subprocess.PIPE, stderr=subprocess.STDOUT)
+            try:
+                p.stdin.write(full.encode())
+                p.stdin.close()
+            except OSError:
+                pass
+            procs.append([cname, p, b"", False])
+        end = time.time() + timeout_s + 5
+        winner, grace_end = None, None
+        while True:
+            live = [pr for pr in procs if not pr[3]]
+            if not live or time.time() > end or (grace_end and time.time() > grace_end):
+                break
+            r, _, _ = select.select([pr[1].stdout for pr in live], [], [], 0.02 if grace_end else 0.5)
+            for pr in live:
+                if pr[1].stdout in r:
+                    chunk = os.read(pr[1].stdout.fileno(), 65536)
+                    if chunk:
+                        pr[2] += chunk
+                    else:
+                        pr[3] = True
+                        pr[1].wait()
+                        first = pr[2].decode(errors="replace").strip().split("\n")[0].strip()
+                        if first in ("sat", "unsat") and "(error" not in pr[2].decode(errors="replace"):
+                            if winner is None:
+                                winner, grace_end = pr, time.time() + 0.05
+                            elif winner[2].decode(errors="replace").strip().split("\n")[0].strip() != first:
+                                winner = ("disagree", None, ("(error \"cvc5 configurations disagree: %s says %s, %s says %s\")" % (
+                                    winner[0], winner[2].decode().split("\n")[0], pr[0], first)).encode(), True)
+        for pr in procs:
+            if not pr[3]:
+                try:
+                    pr[1].kill()
+                    pr[1].wait()
+                except OSError:
+                    pass
+        if winner is not None:
+            return winner[2].decode(errors="replace").strip(), winner[0]
+        done = [pr for pr in procs if pr[3]]
+        if done:  # nobody was definitive: report the most informative finished output (unknown / error)
+            return done[0][2].decode(errors="replace").strip(), done[0][0]
+        return None, "timeout"
+
+
+Z3_CHECK = "(check-sat-using (try-for qfbv %d))" % QUERY_TIMEOUT_MS
+
+
 def start_solvers():
+    # z3: one process for the whole run, push/pop per query.  Queries are decided with the one-shot qfbv tactic
+    # (check-sat-using works inside a push/pop scope) because z3's incremental core is 5-10x slower on the remainder queries.
     z3 = Solver("z3", ["z3", "-in", "-t:%d" % QUERY_TIMEOUT_MS])
-    cvc5 = Solver("cvc5", ["cvc5", "--lang", "smt2", "--incremental", "--produce-models", "--tlimit-per=%d" % QUERY_TIMEOUT_MS])
+    cvc5 = Cvc5()
     z3.send("(set-option :produce-models true)")
-    cvc5.send("(set-option :produce-models true)\n(set-logic QF_BV)")
     for s, cmd in ((z3, ["z3", "--version"]), (cvc5, ["cvc5", "--version"])):
         try:
             s.version = subprocess.run(cmd, stdout=subprocess.PIPE, stderr=subprocess.STDOUT, text=True).stdout.split("\n")[0].strip()
@@ -1429,6 +1538,8 @@ NATIVE = {
                 "b.put::<i64>(cap + d::LATEST_COUNTER_OFFSET, a[1] as i64); b.put::<i64>(cap + d::TAIL_INTENT_COUNTER_OFFSET, a[2] as i64); "
                 "let rx = BroadcastReceiver::new(b).unwrap(); let r = rx.validate(); drop(rx); r as i128 }",
         "domain": {"self.capacity": _pow2(3, 16)},
+        # inputs of the SMT model that the native construction fixes itself (BroadcastReceiver::new computes the index)
+        "derived": {"self.tail_intent_counter_index": lambda v: v["self.capacity"]},
     },
 }
 
@@ -1481,13 +1592,14 @@ class Native:
             f = self.prog.fn(target)
             if "call" in e:
                 expr = e["call"]
-                self.entries[key] = {"inputs": e["inputs"], "ret": f.ret, "domain": e.get("domain", {})}
+                self.entries[key] = {"inputs": e["inputs"], "ret": f.ret, "domain": e.get("domain", {}), "derived": e.get("derived", {})}
             else:
                 if any(ty_info(ty) is None for _, ty in f.params) or (ty_info(f.ret) is None and f.ret != "()"):
                     continue
                 casts = ", ".join("a[%d] as %s" % (i, ty) if ty != "bool" else "a[%d] != 0" % i for i, (_, ty) in enumerate(f.params))
                 expr = "%s(%s) as i128" % (e["path"], casts)
-                self.entries[key] = {"inputs": [f.debug.get(l, l) for l, _ in f.params], "ret": f.ret, "domain": e.get("domain", {})}
+                self.entries[key] = {"inputs": [f.debug.get(l, l) for l, _ in f.params], "ret": f.ret, "domain": e.get("domain", {}),
+                                     "derived": {}}
             arms.append('        "%s" => %s,' % (key, expr))
         return "\n".join(arms)
 
@@ -1537,7 +1649,12 @@ class Native:
         if self.error or not self.bins:
             raise Inconclusive(self.error or "native binaries not built")
         text = "".join("%s %s\n" % (key, " ".join(str(v) for v in vec)) for vec in vectors)
-        p = subprocess.run([self.bins[profile]], input=text, stdout=subprocess.PIPE, stderr=subprocess.PIPE, text=True, timeout=120)
+        lock = open(os.path.join(NATIVE_DIR, ".lock"), "a")
+        fcntl.flock(lock, fcntl.LOCK_SH)   # not while another check process is relinking the binaries
+        try:
+            p = subprocess.run([self.bins[profile]], input=text, stdout=subprocess.PIPE, stderr=subprocess.PIPE, text=True, timeout=120)
+        finally:
+            lock.close()
         lines = p.stdout.split("\n")[:-1]
         if p.returncode != 0 or len(lines) != len(vectors):
             raise Inconclusive("native runner (%s) exit %s, %d/%d answers: %s" % (profile, p.returncode, len(lines), len(vectors), p.stderr[-200:]))
@@ -1602,8 +1719,8 @@ class Session:
             text, self.mir_info = dump_mir()
             self.prog = Program(text)
             self.z3, self.cvc5 = start_solvers()
-            for s in (self.z3, self.cvc5):
-                s.send(PRELUDE)
+            self.z3.send(PRELUDE)
+            self.cvc5.define(PRELUDE)
             self.native = Native(self.prog)
             self.native.build()
             if self.native.error:
@@ -1627,11 +1744,11 @@ class Session:
         self.models[key] = ms
         for m in ms.values():
             text = "\n".join(m.defs())
-            for s in (self.z3, self.cvc5):
-                out = s.roundtrip(text, 30)
-                if out is None or "(error" in out:
-                    self.inconclusive.append("E2: %s rejected the definitions of %s[%s]: %s" % (s.name, key, m.profile, (out or s.dead or "")[:200]))
-                    return None
+            out = self.z3.roundtrip(text, 30)
+            if out is None or "(error" in out:
+                self.inconclusive.append("E2: z3 rejected the definitions of %s[%s]: %s" % (key, m.profile, (out or self.z3.dead or "")[:200]))
+                return None
+            self.cvc5.define(text)
             if m.outputs["ub"][0] is not FALSE:
                 self.inconclusive.append("E2: %s[%s] can reach an `unreachable` terminator (not modelled)" % (key, m.profile))
         self.validate(key)
@@ -1639,7 +1756,7 @@ class Session:
 
     def eval_outputs(self, solver, model, outs, vectors):
         """values of the defined SMT functions on concrete input vectors (unsigned ints), through the solver's get-value"""
-        cmds, names = ["(push)"], []
+        cmds, names = [], []
         for i, vec in enumerate(vectors):
             actual = {n: lit(v, w) for (n, w, _), v in zip(model.inputs, vec)}
             for o in outs:
@@ -1649,8 +1766,10 @@ class Session:
         cmds.append("(check-sat)")
         for i in range(0, len(names), 200):
             cmds.append("(get-value (%s))" % " ".join(names[i:i + 200]))
-        cmds.append("(pop)")
-        out = solver.roundtrip("\n".join(cmds), 60)
+        if solver is self.z3:
+            out = solver.roundtrip("(push)\n" + "\n".join(cmds) + "\n(pop)", 60)
+        else:
+            out, _ = solver.run("\n".join(cmds), 60, race=False)
         if out is None or "(error" in out or not out.startswith("sat"):
             raise Inconclusive("%s could not evaluate %s: %s" % (solver.name, model.key, (out or solver.dead or "")[:200]))
         vals = parse_values(out)
@@ -1703,19 +1822,24 @@ class Session:
         """SMT model (through both solvers' get-value) versus the natively compiled function, dev and release"""
         ms = self.models[key]
         if self.native is None or key not in self.native.entries:
-            self.validation[key] = {"native": "skipped: not callable from outside the crate (private or needs crate-internal state)"}
-            self.report.append("E2 %-44s translated; native validation skipped (not publicly callable)" % key)
+            self.validation[key] = {"native": "skipped: no native entry (private function, or needs crate-internal state to call)"}
+            self.report.append("E2 %-44s translated; native validation skipped (private / needs crate-internal state)" % key)
             return
         ent = self.native.entries[key]
         stats = {}
         try:
             for prof, m in ms.items():
                 names = [n for n, _, _ in m.inputs]
-                if sorted(names) != sorted(ent["inputs"]):
+                if sorted(names) != sorted(list(ent["inputs"]) + list(ent["derived"])):
                     raise Inconclusive("native entry inputs %s differ from translated inputs %s" % (ent["inputs"], names))
-                vecs = self.vectors_for(key, m)
+                vecs = self.vectors_for(key, m, 64 if self.tier == "quick" else 512)
                 outs = ["panics"] + (["ret"] if "ret" in m.outputs else [])
-                unsigned = [[dict(zip(ent["inputs"], v))[n] & ((1 << w) - 1) if w else dict(zip(ent["inputs"], v))[n] for n, w, _ in m.inputs] for v in vecs]
+                unsigned = []
+                for v in vecs:
+                    d = dict(zip(ent["inputs"], v))
+                    for dn, fn in ent["derived"].items():
+                        d[dn] = fn(d)
+                    unsigned.append([d[n] & ((1 << w) - 1) if w else d[n] for n, w, _ in m.inputs])
                 nat = self.native.run(prof, key, vecs)
                 panics = 0
                 for solver in (self.z3, self.cvc5):
@@ -1739,35 +1863,45 @@ class Session:
             self.report.append("E2 %-44s VALIDATION FAILED: %s" % (key, e))
 
     # ---- queries -----------------------------------------------------------------------------------
-    def _ask(self, solver, text, names):
+    def _ask(self, text, names):
+        """z3: push, assert, decide with the qfbv tactic, read the model on sat, pop"""
+        solver = self.z3
         t = time.time()
-        cmd = "(push)\n%s\n(check-sat)" % text
-        out = solver.roundtrip(cmd, QUERY_TIMEOUT_MS / 1000 + 15)
+        out = solver.roundtrip("(push)\n%s\n%s" % (text, Z3_CHECK), QUERY_TIMEOUT_MS / 1000 + 15)
         verdict, model = "error", None
         if out is not None and "(error" not in out:
-            first = out.strip().split("\n")[-1].strip() if out.strip() else ""
-            if first in ("sat", "unsat", "unknown"):
-                verdict = first
+            last = out.strip().split("\n")[-1].strip() if out.strip() else ""
+            if last in ("sat", "unsat", "unknown"):
+                verdict = last
             if verdict == "sat" and names:
                 mv = solver.roundtrip("(get-value (%s))" % " ".join(names), 30)
-                if mv is None or "(error" in mv:
+                vals = parse_values(mv) if mv is not None and "(error" not in mv else []
+                if len(vals) != len(names):
                     verdict = "error"
                 else:
-                    vals = parse_values(mv)
-                    if len(vals) != len(names):
-                        verdict = "error"
-                    else:
-                        model = dict(zip(names, vals))
+                    model = dict(zip(names, vals))
         if out is None:
             verdict = "timeout"
         if not solver.dead:
             solver.roundtrip("(pop)", 10)
         return verdict, model, round(time.time() - t, 3), (out or solver.dead or "")[:200]
 
-    def check(self, name, decls, domain, goal, uses, profiles=PROFILES, what=""):
+    def _ask_cvc5(self, text):
+        t = time.time()
+        out, cfg = self.cvc5.run(text + "\n(check-sat)", QUERY_TIMEOUT_MS / 1000)
+        verdict = "timeout" if out is None else "error"
+        if out is not None and "(error" not in out:
+            first = out.strip().split("\n")[0].strip()
+            if first in ("sat", "unsat", "unknown"):
+                verdict = first
+        return verdict, cfg, round(time.time() - t, 3), (out or "")[:200]
+
+    def check(self, name, decls, domain, goal, uses, profiles=PROFILES, what="", split=None):
         """Obligation: for all values of `decls` [(name, width)] satisfying `domain` [smt bool texts], `goal` holds.
         `uses` = {placeholder: (function key, {input name: smt text})}; `{placeholder[out]}` in domain/goal expands to the
-        application of that function's output in the profile being checked.  Decided as sat(domain and not goal)."""
+        application of that function's output in the profile being checked.  Decided as sat(domain and not goal).
+        split = (variable, [values]): cvc5 is asked one instance per literal value of that variable (it cannot cope with a
+        symbolic shift amount next to a remainder); z3 decides the unsplit query.  All instances unsat <=> unsat."""
         for prof in profiles:
             q = "%s[%s]" % (name, prof)
             try:
@@ -1775,6 +1909,8 @@ class Session:
                 for ph, (key, actual) in uses.items():
                     if key not in self.models:
                         raise Inconclusive("function %s is not translated" % key)
+                    # actual arguments may refer to outputs of uses listed before them: "{p[ret]}"
+                    actual = {n: t.format(**inst) for n, t in actual.items()}
                     inst[ph] = Instance(self.models[key][prof], actual)
                 dom = [d.format(**inst) for d in domain]
                 g = goal.format(**inst)
@@ -1790,23 +1926,43 @@ class Session:
             for ph, (key, actual) in uses.items():
                 m = self.models[key][prof]
                 for n, w, _ in m.inputs:
-                    wit.append(("w!%s!in!%s" % (ph, n), w, actual[n]))
+                    wit.append(("w!%s!in!%s" % (ph, n), w, inst[ph].actual[n]))
                 for o in ("panics", "ret"):
                     if o in m.outputs:
                         wit.append(("w!%s!out!%s" % (ph, o), m.outputs[o][0].w, inst[ph][o]))
             wdefs = "\n".join("(define-fun %s () %s %s)" % (sym(n), sort_of(w), t) for n, w, t in wit)
             vkey = head
             if vkey not in self._vacuity:
-                v, _, secs, raw = self._ask(self.z3, head, [])
+                v, _, secs, raw = self._ask(head, [])
                 self.queries += 1
                 self._vacuity[vkey] = (v, secs)
             vac = self._vacuity[vkey][0]
             body = head + "\n" + wdefs + "\n(assert (not %s))" % g
             allnames = names + [sym(n) for n, _, _ in wit]
-            v1, model, s1, raw1 = self._ask(self.z3, body, allnames)
-            v2, model2, s2, raw2 = self._ask(self.cvc5, body, allnames)
-            self.queries += 2
-            rec = {"query": q, "z3": v1, "z3_s": s1, "cvc5": v2, "cvc5_s": s2, "domain_satisfiable": vac}
+            v1, model, s1, raw1 = self._ask(body, allnames)
+            self.queries += 1
+            if split is None:
+                v2, cfg, s2, raw2 = self._ask_cvc5(body)
+                self.queries += 1
+            else:
+                sv, values = split
+                sw = dict(decls)[sv]
+                if v1 == "sat":
+                    values = [x for x in values if x == model[sym(sv)]] or values
+                v2, s2, raw2, cfg = "unsat", 0.0, "", ""
+                for x in values:
+                    inst_body = body.replace("(declare-const %s %s)" % (sym(sv), sort_of(sw)),
+                                             "(define-fun %s () %s %s)" % (sym(sv), sort_of(sw), lit(x, sw)))
+                    vx, cfg, sx, raw2 = self._ask_cvc5(inst_body)
+                    self.queries += 1
+                    s2 += sx
+                    if vx != "unsat":
+                        v2 = vx
+                        break
+                s2 = round(s2, 3)
+            rec = {"query": q, "z3": v1, "z3_s": s1, "cvc5": v2, "cvc5_s": s2, "cvc5_config": cfg, "domain_satisfiable": vac}
+            if split is not None:
+                rec["cvc5_split"] = "%s in %s" % (split[0], list(split[1]))
             self.verdicts.append(rec)
             if vac != "sat":
                 rec["verdict"] = "inconclusive"
@@ -1839,7 +1995,7 @@ class Session:
             item = {"function": key, "inputs": sins, "predicted": "panic" if exp_panic else ("returns %s" % (
                 signed_of(exp_ret, m.outputs["ret"][1]) if exp_ret is not None else "()"))}
             if self.native is None or key not in self.native.entries:
-                problems.append("%s cannot be called natively (private)" % key)
+                problems.append("%s has no native entry (private / needs crate-internal state)" % key)
                 replays.append(item)
                 continue
             ent = self.native.entries[key]
@@ -1859,17 +2015,26 @@ class Session:
             self.inconclusive.append("E2 %s: solver counterexample %s NOT confirmed natively: %s" % (q, rec["model"], "; ".join(problems)))
         else:
             rec["verdict"] = "violated"
-            self.violations.append({"query": q, "what": "%s violated in the %s profile; native replay: %s" % (what, prof, replays),
+            self.violations.append({"query": q, "what": "%s [%s profile]; native replay: %s" % (what, prof, replays),
                                     "function": ", ".join(sorted(set(k for k, _ in uses.values()))),
                                     "model": {"values": rec["model"], "replay": replays}})
 
     # ---- result ------------------------------------------------------------------------------------
-    def finish(self, bounds=None, known_hits=None):
+    def finish(self, bounds=None, known=None):
+        known_hits = []
+        for v in list(self.violations):   # same matching rule as the driver applies to Kani checks
+            for k in known or []:
+                if k.get("property") == self.prop and k.get("status") == "known" and re.search(k.get("harness", ".*"), "E2:" + v["query"]) \
+                        and re.search(k.get("description", ".*"), v["what"]):
+                    known_hits.append({"known": k, "query": v["query"], "what": v["what"]})
+                    self.violations.remove(v)
+                    break
         for s in (self.z3, self.cvc5):
             if s is not None:
                 if s.dead and not any(s.dead in i for i in self.inconclusive):
                     self.inconclusive.append("E2: " + s.dead)
-                s.close()
+                if hasattr(s, "close"):
+                    s.close()
         fun = {}
         for key, ms in self.models.items():
             m = ms["checked"]
@@ -1883,7 +2048,7 @@ class Session:
                                                        "cached" if self.native and self.native.info.get("cached") else
                                                        "built %ss" % (self.native.info.get("seconds") if self.native else "-")))
         return {"queries": self.queries, "nontrivial": self.nontrivial, "inconclusive": self.inconclusive, "violations": self.violations,
-                "known_hits": known_hits or [], "report": self.report,
+                "known_hits": known_hits, "report": self.report,
                 "evidence": {"engine": "mirsmt: rustc nightly MIR (-C overflow-checks=on -C debug-assertions=off) -> SMT-LIB2 QF_BV",
                              "solvers": [self.z3.version if self.z3 else None, self.cvc5.version if self.cvc5 else None],
                              "profiles": list(PROFILES), "mir": self.mir_info, "native": self.native.info if self.native else None,
